@@ -11,7 +11,7 @@ use crate::runner::{verif_root, Case, Ctx, Property, Tier, Verdict};
 
 pub struct C09;
 
-fn gen_case(c: &mut Choices) -> Case {
+pub fn gen_case(c: &mut Choices) -> Case {
     let tsx = c.chance(1, 3);
     let mut opts = any_opts(c, true, tsx);
     let jsx = c.chance(3, 4);
